@@ -66,6 +66,9 @@ type metric struct {
 type MetricTable struct {
 	metricPeriodStart time.Time
 	failedHarvests    int
+	// For a table produced by ApplyRules: the table it was produced from,
+	// which still has the names as the agents reported them.
+	unrenamed *MetricTable
 	maxTableSize      int // After this max is reached, only forced metrics are
 	// added
 	count      int // The total number of metrics stored
@@ -369,6 +372,13 @@ func (mt *MetricTable) Audit(id AgentRunID, harvestStart time.Time) ([]byte,
 // the upcoming harvest. This may result in some unforced metrics
 // being discarded.
 func (mt *MetricTable) FailedHarvest(newHarvest *Harvest) {
+	// The rename rules are applied to the upcoming harvest as a whole when
+	// it is sent. Hand back the names as they were reported, otherwise the
+	// rules would be applied a second time to names they already produced.
+	if nil != mt.unrenamed {
+		newHarvest.Metrics.MergeFailed(mt.unrenamed)
+		return
+	}
 	newHarvest.Metrics.MergeFailed(mt)
 }
 
@@ -389,6 +399,7 @@ func (mt *MetricTable) ApplyRules(rules MetricRules) *MetricTable {
 	// The renamed table is the same payload: keep counting its failed
 	// delivery attempts.
 	applied.failedHarvests = mt.failedHarvests
+	applied.unrenamed = mt
 
 	for name, s := range mt.metrics {
 		_, out := rules.Apply(name)
